@@ -157,6 +157,12 @@ func c02Scenario(c *rt.Ctx, fsType string, r *rand.Rand, prog []fsx.Op, exhausti
 		} else {
 			cls = fsx.OpClass(l.osx.FS, o)
 		}
+		if o.K == "F.WriteAt" && o.Data == "" && hs[o.H].flags >= 0 && !hs[o.H].open {
+			// os.File.WriteAt with an empty buffer returns (0, nil) even on a closed file (its loop never reaches the system
+			// call); the property says that any call on a closed handle fails with a closed-file error. Not compared.
+			c.Rep.Count("empty_writeat_on_closed_handle_not_compared", 1)
+			continue
+		}
 		a := l.emu.Exec(o)
 		b := l.osx.Exec(o)
 		hist = append(hist, o.String()+" -> "+a.String())
@@ -394,7 +400,7 @@ func init() {
 		Meta: func(tier string) rt.Meta {
 			return rt.Meta{Level: "exploration", MinEvals: 5000, MinDistinct: 100,
 				Rule:        "differential lockstep against *os.File on tmpfs (chroot): scenarios of one file (0-40 bytes), optionally a second hard link, up to 3 handles opened with independently drawn flag sets (36 sets) and 60 steps of Read/ReadAt/Write/WriteAt/WriteString/Seek/Truncate/Stat/Sync/Chmod/Chown/Close/re-open and path-level Truncate/Rename/Link/Remove/Chmod/WriteFile of the file; offsets, sizes and lengths straddle the current size. After EVERY step the offset and Stat of every open handle and the content/size/mode/owner/nlink of every link are compared. Plus bounded-exhaustive: every sequence of 2 (quick) / 3 (thorough) operations of a reduced set for each flag set. Directory handles are judged against the statement itself; in one scenario out of four the directory shrinks and grows between the batches (every batch call must still return, with names that existed). Chdir on handles: handles opened under relative, unclean and symbolic-link names while the current directory moves (24 steps), Getwd compared after every step. Signature = fs | op | handle mode | offset-vs-size class | argument classes | outcome; non-trivial = not the first step.",
-				Assumptions: []string{"Seek whence 3/4 (SEEK_DATA/HOLE) are never generated; error strings, Fd and mtimes are not compared"}}
+				Assumptions: []string{"Seek whence 3/4 (SEEK_DATA/HOLE) are never generated; error strings, Fd and mtimes are not compared", "WriteAt with an empty buffer on a closed handle is not compared (os.File returns nil there, the property demands a closed-file error)"}}
 		},
 		Timeout: func(tier string) int {
 			if tier == "thorough" {
